@@ -1178,10 +1178,12 @@ async fn detect_fd_leaks<'a>(
     stopwatch: &mut StopwatchStart,
     req_rx: &mut UnboundedReceiver<RunUnitRequest<'a>>,
 ) -> bool {
+    let mut sleep = std::pin::pin!(crate::time::pausable_sleep(leak_timeout));
+
     loop {
-        // Ignore stop and continue events here since the leak timeout should be very small.
-        // TODO: we may want to consider them.
-        let mut sleep = std::pin::pin!(tokio::time::sleep(leak_timeout));
+        // The leak timeout starts over on every iteration of the loop. (If nextest
+        // is currently stopped, it starts over once nextest is continued.)
+        sleep.as_mut().reset(leak_timeout);
         let waiting_stopwatch = crate::time::stopwatch();
 
         tokio::select! {
@@ -1199,8 +1201,30 @@ async fn detect_fd_leaks<'a>(
                 let req = recv.expect("a RecvError should never happen here");
 
                 match req {
+                    #[cfg(unix)]
+                    RunUnitRequest::Signal(SignalRequest::Stop(sender)) => {
+                        // The process is done executing so there's nothing to
+                        // stop, but time spent stopped must not count towards
+                        // the unit's duration or the leak timeout.
+                        if !stopwatch.is_paused() {
+                            stopwatch.pause();
+                        }
+                        if !sleep.is_paused() {
+                            sleep.as_mut().pause();
+                        }
+                        let _ = sender.send(());
+                    }
+                    #[cfg(unix)]
+                    RunUnitRequest::Signal(SignalRequest::Continue) => {
+                        if stopwatch.is_paused() {
+                            stopwatch.resume();
+                        }
+                        if sleep.is_paused() {
+                            sleep.as_mut().resume();
+                        }
+                    }
                     RunUnitRequest::Signal(_) => {
-                        // The process is done executing, so signals are moot.
+                        // The process is done executing, so other signals are moot.
                     }
                     RunUnitRequest::OtherCancel => {
                         // Ignore non-signal cancellation requests -- let the
